@@ -27,6 +27,13 @@ handleKeepaliveResponse` (connection/mod.rs, connection/rtt.rs), `Srtla.Sys.hand
   `C14_cadence_wire`, `C14_wire_cadence`, `C14_wire_cadence_two_periods` (consecutive keepalive FRAMES
   on a live link's wire, any two consecutive ticks of any run from start-up).
 
+* Audit round 2: `C14_kalman_psd_run` (+ `_step`, `_fresh`) — along every run of the shell every link's Kalman
+  covariance stays PSD and the next innovation denominator is `> 2`; `C14_Kalman_update_convex`,
+  `C14_sample_convex_sys` — a fed sample moves the estimate to a point between the prediction `x + v` and the
+  sample; `C14_estimate_overshoots_samples` — witness that the estimate is NOT bounded by the samples;
+  `C14_smooth_nonneg_run` is true by definition of `get_smooth_rtt_ms` (says so).  RTT has TWO sampling sites
+  (keepalive echo, cumulative SRT ACK): see the docstring of `C14_sample_only_from_echo_sys`.
+
 Everything except the last group holds for every scalar type `F` with any `[Scalar F]` instance,
 `Float` included.
 -/
@@ -740,16 +747,29 @@ theorem C14_rtt_changes_only_by_sys (s : Sys F) (e : Ev) (j : Nat) (l l' : FLink
     · exact .inl h
     · exact absurd hr (hn _ (by decide))
 
-/-- **Along any run** (`C14_sample_only_from_echo_sys`): for every run `pre ++ [e]` of the shell from ANY
-state, the last event changes the FILTER state of link `j`'s RTT tracker only
+/-- **Along any run** (`C14_sample_only_from_echo_sys`).  READ THIS FIRST: the name follows the property TITLE
+("RTT comes only from echoes"), but the code has TWO sampling sites and this theorem says so.  The property
+STATEMENT restricts KEEPALIVE samples only ("a keepalive round-trip sample is taken only from an echo received
+while a probe is outstanding, only if 0 < RTT ≤ 10 s"); that clause is the third disjunct.  The SECOND sampling
+site — the cumulative SRT ACK (`handle_srt_ack`, type 0x8002: the send-to-ACK time of a packet logged on this
+link, same `0 < rtt ≤ 10000` filter, NO outstanding probe required, runs on every link the ACK covers) — feeds the
+same filter and is the fourth disjunct.  So "RTT comes only from echoes" is FALSE of the code as a literal
+sentence; what holds is "only from keepalive echoes and cumulative SRT ACKs, each with the 10 s filter".
+
+For every run `pre ++ [e]` of the shell from ANY state, the last event changes the FILTER state of link `j`'s RTT
+tracker only
 
 * by a keepalive echo: an `uplink` event on that link's conn id, type 0x9000, received while a probe was
   outstanding, with `0 < now − ts ≤ 10000` — the one sample `now − ts`;
 * by the cumulative-SRT-ACK sampling path (type 0x8002, a logged packet of this link, `0 < now − sent ≤ 10000`);
 * by the reset of a housekeeping reconnect.
 
-In every other case the smoothed RTT, the Kalman state, the minimum and the measurement stamp after the event
-equal those before it. -/
+In every other case (first disjunct) FIVE filter fields after the event equal those before it: the Kalman state
+(`x`, `v`, the four covariance entries, `initialized`), `last_rtt_measurement_ms`, the minimum `rtt_min`, the
+estimate `estimated`, and the smoothed value `get_smooth_rtt_ms`.  The comparison is of these five fields, not of
+the whole tracker: jitter, the fast / slow windows, `masd`, `avg_delta` are also untouched (`SameFilter` in
+`C14_rtt_changes_only_by_sys` says so) but are not restated here, and the probe bookkeeping (`waiting`,
+`last_keepalive_sent_ms`) may move. -/
 theorem C14_sample_only_from_echo_sys (s : Sys F) (pre : List Ev) (e : Ev) (j : Nat) (l l' : FLink F)
     (hl : (Sys.run s pre).1.links[j]? = some l) (hl' : (Sys.run s (pre ++ [e])).1.links[j]? = some l') :
     (l'.rtt.kalman = l.rtt.kalman ∧ l'.rtt.lastRttMeasMs = l.rtt.lastRttMeasMs ∧ l'.rtt.rttMin = l.rtt.rttMin ∧
@@ -778,13 +798,153 @@ variable {F : Type} [Field F] [LinearOrder F] [IsStrictOrderedRing F] [FloorRing
 
 local notation "𝕊" => fieldScalar F e
 
-/-- **No event makes the smoothed RTT negative** (exact arithmetic over an ordered field, any `exp`): in every
-state reached by ANY run of the shell from ANY state — whatever echoes (timely, late, duplicated, truncated,
-zero / future timestamps), SRT ACKs, resets and ticks it contains — `get_smooth_rtt_ms` of every link is `≥ 0`.
-(The finiteness clause is about IEEE floats and stays as in `C14_smooth_float_nan` + monitor `smooth-rtt-invalid`.) -/
+/-- **The smoothed RTT is `≥ 0` in every reached state** — TRUE BY DEFINITION: `get_smooth_rtt_ms` is
+`max(kalman.x, 0)` (`RttTracker.smooth`), so the inequality holds of EVERY tracker whatsoever
+(`C14_smooth_nonneg`); the run, the start state and the events play no role in the proof (see the proof term: the
+membership hypothesis is not used).  It is kept under its name as the run-shaped reading of the property clause
+"never makes the smoothed RTT negative"; the statement that DOES depend on the run is `C14_kalman_psd_run` below
+(the filter the clamp is applied to stays well-conditioned).  Exact arithmetic over an ordered field, any `exp`;
+the finiteness clause is about IEEE floats and stays as in `C14_smooth_float_nan` + monitor `smooth-rtt-invalid`. -/
 theorem C14_smooth_nonneg_run (s : Sys F) (evs : List Ev) :
     ∀ l ∈ (@Sys.run F 𝕊 s evs).1.links, 0 ≤ @RttTracker.smooth F 𝕊 l.rtt :=
   fun l _ => C14_smooth_nonneg e l.rtt
+
+/-- One event keeps every link's Kalman covariance PSD: by `C14_rtt_changes_only_by_sys` the filter is untouched,
+reset to the fresh filter, or fed ONE sample through `update_estimate` — and each of the three preserves PSD. -/
+theorem C14_kalman_psd_step (s : Sys F) (ev : Ev) (h : ∀ l ∈ s.links, PSD l.rtt.kalman) :
+    ∀ l' ∈ (@step F 𝕊 s ev).1.links, PSD l'.rtt.kalman := by
+  intro l' hl'
+  obtain ⟨j, hj, hget⟩ := List.getElem_of_mem hl'
+  have hlen := (@Hk.step_link F 𝕊 s ev).2.1
+  have hj' : j < s.links.length := by omega
+  have hl : s.links[j]? = some s.links[j] := List.getElem?_eq_getElem hj'
+  have hl'' : (@step F 𝕊 s ev).1.links[j]? = some l' := by rw [List.getElem?_eq_getElem hj, hget]
+  have hp := h _ (List.getElem_mem hj')
+  rcases @C14_rtt_changes_only_by_sys F 𝕊 s ev j _ l' hl hl'' with hs | ⟨-, hs⟩ | hs | hs
+  · rw [(@SysDir.SameFilter.fields F 𝕊 _ _ hs).1]; exact hp
+  · rw [(@SysDir.SameFilter.fields F 𝕊 _ _ hs).1]; exact KalmanField.psd_tracker_new e
+  · obtain ⟨now, cid, data, -, -, -, -, ts, -, -, -, hr⟩ := hs
+    rw [hr]
+    exact KalmanField.psd_updateEstimate e _ _ _ hp
+  · obtain ⟨now, cid, data, -, -, a, sent, -, -, -, -, -, hr⟩ := hs
+    rw [hr]
+    exact KalmanField.psd_updateEstimate e _ _ _ hp
+
+/-- **The Kalman filter stays well-conditioned along every run** (exact arithmetic over an ordered field; this
+statement DOES depend on the run).  From any state whose links carry a PSD covariance — in particular fresh links
+(`SrtlaConnection::new_registering`, second theorem) — after ANY finite list of shell events (echoes timely, late,
+duplicated, truncated, with zero / future timestamps; SRT ACKs; resets; ticks; fault injections; verdict stamps),
+for every link:
+1. the covariance `[[p0, p1], [p2, p3]]` is symmetric positive semi-definite — the hypothesis `PSD` of
+   `C14_Kalman_update_formula`;
+2. the innovation covariance `s = p0 + p2 + p1 + p3 + 1/2 + 2` the NEXT `update` divides by exceeds `r = 2`;
+3. so the degenerate-innovation guard `|s| < 1e-12` is false: the next update takes the correcting branch and
+   both of its divisions are by a number `> 2`.
+Which events feed the filter at all is `C14_rtt_changes_only_by_sys` (samples are in `(0, 10000]`); what a fed
+sample does to the estimate is `C14_sample_convex_sys`.  NOT covered: IEEE-754 rounding, overflow, NaN. -/
+theorem C14_kalman_psd_run (s : Sys F) (evs : List Ev) (h : ∀ l ∈ s.links, PSD l.rtt.kalman) :
+    ∀ l ∈ (@Sys.run F 𝕊 s evs).1.links,
+      PSD l.rtt.kalman ∧
+      2 < l.rtt.kalman.p0 + l.rtt.kalman.p2 + l.rtt.kalman.p1 + l.rtt.kalman.p3 + 1 / 2 + 2 ∧
+      @Rtt.tiny F 𝕊 (@Scalar.add F 𝕊 (@Scalar.add F 𝕊 (@Scalar.add F 𝕊 (@Scalar.add F 𝕊
+        (@Scalar.add F 𝕊 l.rtt.kalman.p0 l.rtt.kalman.p2) l.rtt.kalman.p1) l.rtt.kalman.p3) (@Rtt.qValue F 𝕊))
+        (@Rtt.rNoise F 𝕊)) = false := by
+  have hrun : ∀ l ∈ (@Sys.run F 𝕊 s evs).1.links, PSD l.rtt.kalman := by
+    induction evs generalizing s with
+    | nil => exact h
+    | cons ev evs ih => exact ih _ (C14_kalman_psd_step e s ev h)
+  intro l hl
+  have hp := hrun l hl
+  exact ⟨hp, KalmanField.innov_gt e _ hp⟩
+
+/-- The base case: every freshly constructed link has a PSD (all-zero) covariance — so the run statement holds
+from the driver's / harness's initial state, and from any state reached from it. -/
+theorem C14_kalman_psd_fresh (s : Sys F) (h : ∀ l ∈ s.links, ∃ id t, l = @FLink.newRegistering F 𝕊 id t) :
+    ∀ l ∈ s.links, PSD l.rtt.kalman := by
+  intro l hl
+  obtain ⟨id, t, rfl⟩ := h l hl
+  exact KalmanField.psd_tracker_new e
+
+/-- **A correcting update is a convex combination of the prediction and the measurement.**  With a PSD covariance
+and an initialised filter, the gain `g = (s − 2) / s` (`s` the innovation covariance, `> 2`) is strictly between 0
+and 1 and the new value is `(1 − g)·(x + v) + g·m`: it lies between the PREDICTION `x + v` and the measurement `m`.
+It is NOT bounded by the measurements alone: the prediction carries the velocity state, and the estimate can
+overshoot every sample fed so far (`C14_estimate_overshoots_samples`) — and undershoot below zero on a falling
+RTT, which is why `get_smooth_rtt_ms` clamps (`C14_smooth_nonneg`). -/
+theorem C14_Kalman_update_convex (k : Kalman F) (m : F) (h : PSD k) (hi : k.initialized = true) :
+    0 < (k.p0 + k.p2 + k.p1 + k.p3 + 1 / 2) / KalmanField.innov k ∧
+    (k.p0 + k.p2 + k.p1 + k.p3 + 1 / 2) / KalmanField.innov k < 1 ∧
+    (@Kalman.update F 𝕊 k m).x =
+      (1 - (k.p0 + k.p2 + k.p1 + k.p3 + 1 / 2) / KalmanField.innov k) * (k.x + k.v) +
+        (k.p0 + k.p2 + k.p1 + k.p3 + 1 / 2) / KalmanField.innov k * m ∧
+    min (k.x + k.v) m ≤ (@Kalman.update F 𝕊 k m).x ∧ (@Kalman.update F 𝕊 k m).x ≤ max (k.x + k.v) m := by
+  have hgt := (KalmanField.innov_gt e k h).1
+  have hinn : KalmanField.innov k = (k.p0 + k.p2 + k.p1 + k.p3 + 1 / 2) + 2 := rfl
+  generalize hA : k.p0 + k.p2 + k.p1 + k.p3 + 1 / 2 = A at hinn ⊢
+  have hApos : 0 < A := by linarith
+  have hspos : 0 < KalmanField.innov k := by linarith
+  have hg0 : 0 < A / KalmanField.innov k := div_pos hApos hspos
+  have hg1 : A / KalmanField.innov k < 1 := by rw [div_lt_one hspos]; linarith
+  have hx : (@Kalman.update F 𝕊 k m).x = (1 - A / KalmanField.innov k) * (k.x + k.v) + A / KalmanField.innov k * m := by
+    rw [KalmanField.update_eq_of_psd e k m h hi]
+    simp only [hA]
+    ring
+  refine ⟨hg0, hg1, hx, ?_, ?_⟩
+  · rw [hx]
+    generalize A / KalmanField.innov k = g at hg0 hg1
+    rcases le_total (k.x + k.v) m with hle | hle
+    · rw [min_eq_left hle]; nlinarith
+    · rw [min_eq_right hle]; nlinarith
+  · rw [hx]
+    generalize A / KalmanField.innov k = g at hg0 hg1
+    rcases le_total (k.x + k.v) m with hle | hle
+    · rw [max_eq_right hle]; nlinarith
+    · rw [max_eq_left hle]; nlinarith
+
+/-- **What a fed sample does to the estimate, along any run.**  Run `pre ++ [ev]` from a state with PSD covariances
+(e.g. fresh links); the last event feeds link `j`'s filter — by `C14_rtt_changes_only_by_sys` exactly when its
+tracker afterwards is `update_estimate(rtt, now)` of the tracker before (up to the probe flag), which happens only
+for a keepalive echo or a cumulative SRT ACK with `0 < rtt ≤ 10000`.  Then the Kalman state afterwards is
+`Kalman.update` of the state before with the measurement `rtt`, and
+* first sample ever (filter not initialised): the estimate IS the sample;
+* later samples: the estimate lies between the prediction `x + v` and the sample (`C14_Kalman_update_convex`; the
+  division is by `s > 2`), hence the smoothed value is in `[0, max (x + v) rtt]`. -/
+theorem C14_sample_convex_sys (s : Sys F) (pre : List Ev) (j : Nat) (l : FLink F) (rtt now : Nat) (w : Bool)
+    (h : ∀ l ∈ s.links, PSD l.rtt.kalman) (hl : (@Sys.run F 𝕊 s pre).1.links[j]? = some l) :
+    let t' : RttTracker F := { (@RttTracker.updateEstimate F 𝕊 l.rtt rtt now) with waiting := w }
+    t'.kalman = @Kalman.update F 𝕊 l.rtt.kalman (rtt : F) ∧
+    (l.rtt.kalman.initialized = false → t'.kalman.x = (rtt : F) ∧ @RttTracker.smooth F 𝕊 t' = max (rtt : F) 0) ∧
+    (l.rtt.kalman.initialized = true →
+      min (l.rtt.kalman.x + l.rtt.kalman.v) (rtt : F) ≤ t'.kalman.x ∧
+      t'.kalman.x ≤ max (l.rtt.kalman.x + l.rtt.kalman.v) (rtt : F) ∧
+      0 ≤ @RttTracker.smooth F 𝕊 t' ∧
+      @RttTracker.smooth F 𝕊 t' ≤ max (max (l.rtt.kalman.x + l.rtt.kalman.v) (rtt : F)) 0) := by
+  have hp : PSD l.rtt.kalman := (C14_kalman_psd_run e s pre h l (List.mem_of_getElem? hl)).1
+  have hk : (@RttTracker.updateEstimate F 𝕊 l.rtt rtt now).kalman = @Kalman.update F 𝕊 l.rtt.kalman (rtt : F) := by
+    unfold RttTracker.updateEstimate
+    dsimp only
+    split <;> rfl
+  have hsm : ∀ t : RttTracker F, @RttTracker.smooth F 𝕊 t = max t.kalman.x 0 := by
+    intro t
+    unfold RttTracker.smooth
+    rw [KalmanField.zero_eq]
+    rfl
+  dsimp only
+  refine ⟨hk, fun hi => ?_, fun hi => ?_⟩
+  · have hx : (@Kalman.update F 𝕊 l.rtt.kalman (rtt : F)).x = (rtt : F) := by
+      unfold Kalman.update
+      have hfin : (@Scalar.isFinite F 𝕊 (rtt : F)) = true := rfl
+      simp only [hfin, hi, Bool.not_true, Bool.not_false, Bool.false_eq_true, if_false, if_true]
+    refine ⟨by rw [hk, hx], ?_⟩
+    rw [hsm]
+    show max (@RttTracker.updateEstimate F 𝕊 l.rtt rtt now).kalman.x 0 = _
+    rw [hk, hx]
+  · obtain ⟨-, -, -, c1, c2⟩ := C14_Kalman_update_convex e l.rtt.kalman (rtt : F) hp hi
+    refine ⟨by rw [hk]; exact c1, by rw [hk]; exact c2, C14_smooth_nonneg e _, ?_⟩
+    rw [hsm]
+    show max (@RttTracker.updateEstimate F 𝕊 l.rtt rtt now).kalman.x 0 ≤ _
+    rw [hk]
+    exact max_le_max c2 (le_refl _)
 
 end shellField
 
@@ -807,7 +967,89 @@ example (pre : List Ev) (e : Ev) (j : Nat) (l l' : FLink Int)
     (hl' : (@Sys.run Int Select.fixScalar exSys (pre ++ [e])).1.links[j]? = some l') :=
   @C14_sample_only_from_echo_sys Int Select.fixScalar exSys pre e j l l' hl hl'
 
-example (evs : List Ev) := C14_smooth_nonneg_run (fun x : ℚ => 1 / (1 - x))
-  ({ links := [], reg := Reg.Reg.new [] [] } : Sys ℚ) evs
+/-- A non-empty state over `ℚ`: two fresh links (conn ids 1, 2). -/
+noncomputable def exSysQ : Sys ℚ :=
+  { links := [@FLink.newRegistering ℚ (fieldScalar ℚ (fun x : ℚ => 1 / (1 - x))) 1 0,
+              @FLink.newRegistering ℚ (fieldScalar ℚ (fun x : ℚ => 1 / (1 - x))) 2 0],
+    reg := Reg.Reg.new [] [] }
+
+theorem exSysQ_fresh : ∀ l ∈ exSysQ.links, ∃ id t,
+    l = @FLink.newRegistering ℚ (fieldScalar ℚ (fun x : ℚ => 1 / (1 - x))) id t := by
+  intro l hl
+  simp only [exSysQ, List.mem_cons, List.not_mem_nil, or_false] at hl
+  rcases hl with rfl | rfl
+  · exact ⟨1, 0, rfl⟩
+  · exact ⟨2, 0, rfl⟩
+
+example (evs : List Ev) := C14_smooth_nonneg_run (fun x : ℚ => 1 / (1 - x)) exSysQ evs
+
+/-- `C14_kalman_psd_run` from the two fresh links, any run. -/
+example (evs : List Ev) :=
+  C14_kalman_psd_run (fun x : ℚ => 1 / (1 - x)) exSysQ evs
+    (C14_kalman_psd_fresh (fun x : ℚ => 1 / (1 - x)) exSysQ exSysQ_fresh)
+
+example (pre : List Ev) (j : Nat) (l : FLink ℚ) (rtt now : Nat) (w : Bool)
+    (hl : (@Sys.run ℚ (fieldScalar ℚ (fun x : ℚ => 1 / (1 - x))) exSysQ pre).1.links[j]? = some l) :=
+  C14_sample_convex_sys (fun x : ℚ => 1 / (1 - x)) exSysQ pre j l rtt now w
+    (C14_kalman_psd_fresh (fun x : ℚ => 1 / (1 - x)) exSysQ exSysQ_fresh) hl
+
+example (ev : Ev) :=
+  C14_kalman_psd_step (fun x : ℚ => 1 / (1 - x)) exSysQ ev
+    (C14_kalman_psd_fresh (fun x : ℚ => 1 / (1 - x)) exSysQ exSysQ_fresh)
+
+/-- `C14_Kalman_update_convex` on an explicit initialised PSD state (the filter after the samples 1, 100):
+covariance `[[18/13, 8/13], [8/13, 193/130]]`, prediction `x + v = 100`. -/
+example (m : ℚ) :=
+  C14_Kalman_update_convex (fun x : ℚ => 1 / (1 - x))
+    { x := 904 / 13, v := 396 / 13, p0 := 18 / 13, p1 := 8 / 13, p2 := 8 / 13, p3 := 193 / 130, initialized := true } m
+    (by unfold PSD; norm_num) rfl
+
+/-- **The estimate is NOT bounded by the samples** (witness, exact arithmetic over `ℚ`): feed the fresh filter the
+samples 1, 100, 100, 100 ms.  After the fourth, the Kalman value is `5742020 / 52193 ≈ 110.01` — above EVERY
+sample ever fed (velocity overshoot: the second sample left `v = 396/13 ≈ 30.5 ms / sample`).  So no statement of
+the form "the smoothed RTT stays below the largest sample" holds; the bound that does hold is
+`C14_Kalman_update_convex` (between the prediction `x + v` and the sample). -/
+theorem C14_estimate_overshoots_samples :
+    let 𝕢 := fieldScalar ℚ (fun x : ℚ => 1 / (1 - x))
+    (([1, 100, 100, 100] : List ℚ).foldl (@Kalman.update ℚ 𝕢) (@Kalman.new ℚ 𝕢)).x = 5742020 / 52193 ∧
+    (100 : ℚ) < 5742020 / 52193 := by
+  intro 𝕢
+  refine ⟨?_, by norm_num⟩
+  have k1 : @Kalman.update ℚ 𝕢 (@Kalman.new ℚ 𝕢) 1 =
+      { x := 1, v := 0, p0 := 2, p1 := 0, p2 := 0, p3 := 2, initialized := true } := by
+    unfold Kalman.update Kalman.new
+    have hfin : (@Scalar.isFinite ℚ 𝕢 1) = true := rfl
+    simp only [hfin, Bool.not_true, Bool.not_false, Bool.false_eq_true, if_false, if_true,
+      KalmanField.zero_eq, KalmanField.rNoise_eq]
+  have step : ∀ (k k' : Kalman ℚ) (m : ℚ), KalmanField.PSD k → k.initialized = true →
+      ({ x := k.x + k.v + (k.p0 + k.p2 + k.p1 + k.p3 + 1 / 2) / KalmanField.innov k * (m - (k.x + k.v)),
+         v := k.v + (k.p2 + k.p3) / KalmanField.innov k * (m - (k.x + k.v)),
+         p0 := (1 - (k.p0 + k.p2 + k.p1 + k.p3 + 1 / 2) / KalmanField.innov k) * (k.p0 + k.p2 + k.p1 + k.p3 + 1 / 2),
+         p1 := (1 - (k.p0 + k.p2 + k.p1 + k.p3 + 1 / 2) / KalmanField.innov k) * (k.p1 + k.p3),
+         p2 := k.p2 + k.p3 - (k.p2 + k.p3) / KalmanField.innov k * (k.p0 + k.p2 + k.p1 + k.p3 + 1 / 2),
+         p3 := k.p3 + 1 / 10 - (k.p2 + k.p3) / KalmanField.innov k * (k.p1 + k.p3),
+         initialized := true } : Kalman ℚ) = k' → @Kalman.update ℚ 𝕢 k m = k' := by
+    intro k k' m hp hi hk
+    rw [KalmanField.update_eq_of_psd _ k m hp hi]
+    exact hk
+  have k2 : @Kalman.update ℚ 𝕢 { x := 1, v := 0, p0 := 2, p1 := 0, p2 := 0, p3 := 2, initialized := true } 100 =
+      { x := 904 / 13, v := 396 / 13, p0 := 18 / 13, p1 := 8 / 13, p2 := 8 / 13, p3 := 193 / 130, initialized := true } := by
+    apply step _ _ _ (by unfold KalmanField.PSD; norm_num) rfl
+    simp only [KalmanField.innov]
+    norm_num
+  have k3 : @Kalman.update ℚ 𝕢
+        { x := 904 / 13, v := 396 / 13, p0 := 18 / 13, p1 := 8 / 13, p2 := 8 / 13, p3 := 193 / 130, initialized := true } 100 =
+      { x := 100, v := 396 / 13, p0 := 46 / 33, p1 := 7 / 11, p2 := 7 / 11, p3 := 2621 / 2860, initialized := true } := by
+    apply step _ _ _ (by unfold KalmanField.PSD; norm_num) rfl
+    simp only [KalmanField.innov]
+    norm_num
+  have k4 : (@Kalman.update ℚ 𝕢
+        { x := 100, v := 396 / 13, p0 := 46 / 33, p1 := 7 / 11, p2 := 7 / 11, p3 := 2621 / 2860, initialized := true }
+        100).x = 5742020 / 52193 := by
+    rw [KalmanField.update_eq_of_psd _ _ _ (by unfold KalmanField.PSD; norm_num) rfl]
+    simp only [KalmanField.innov]
+    norm_num
+  simp only [List.foldl_cons, List.foldl_nil]
+  rw [k1, k2, k3, k4]
 
 end Srtla.Props.C14
